@@ -220,6 +220,83 @@ func runC03(c *fw.Ctx) {
 			}
 		}
 	}
+	// NEIGHBOURING doubles of ordinary magnitude (0.1+0.2 against 0.3, x against the next double): different numbers - Eq is 0, Ne is 1,
+	// the order comparisons and ElMax / ElMin follow the exact order - next to exact ties; and one-element divisors / factors that are
+	// powers of two down to the smallest subnormal (their reciprocal is not a finite double, the quotient is)
+	for i := 0; i < c.Pick(1500, 20000); i++ {
+		c.Case(func(k *fw.K) {
+			r := k.Rng
+			shape := RandShape(r, 0, 3, 3)
+			if r.Intn(3) == 0 {
+				a := Shuffled(r, Unique(r, shape, 0.1, 3))
+				var s float64
+				switch r.Intn(4) {
+				case 0:
+					s = math.Ldexp(1, -1074+r.Intn(52))
+				case 1:
+					s = math.Ldexp(1, []int{-1022, -1023, -1030, 1023, 1000, -500}[r.Intn(6)])
+				case 2:
+					s = 3 * math.Ldexp(1, -1074+r.Intn(40))
+				default:
+					s = -math.Ldexp(1, -1074+r.Intn(52))
+				}
+				for i := range a.Data { // dividends of the divisor's magnitude: every quotient is an ordinary number
+					a.Data[i] = math.Round(a.Data[i]*8) * s
+					if math.IsInf(a.Data[i], 0) {
+						a.Data[i] = s
+					}
+				}
+				b := ref.New([][]int{{}, {1}, {1, 1}}[r.Intn(3)], []float64{s})
+				in := ref.Instr{Op: []string{"div", "div", "mul"}[r.Intn(3)]}
+				if in.Op == "mul" {
+					for i := range a.Data {
+						a.Data[i] = math.Round(float64(1+r.Intn(9))) / s / 16
+						if math.IsInf(a.Data[i], 0) || a.Data[i] == 0 {
+							a.Data[i] = 1
+						}
+					}
+				}
+				k.Case = fcase{In: in, Ops: []*ref.T{a, b}, Tag: "one-element power-of-two operand"}
+				k.Key("%s/%s/pow2-scalar/%g", in.Op, shapeKey(shape), s)
+				k.Count("power_of_two_scalar_operand_cases", 1)
+				if msg := forwardCase(in, []*ref.T{a, b}, true); msg != "" {
+					k.Failf("%s of shape %v by a one-element tensor holding %g: %s", in.Op, shape, s, msg)
+				}
+				return
+			}
+			a := Shuffled(r, Unique(r, shape, 0.1, 3))
+			b := a.Clone()
+			for i := range a.Data {
+				if r.Intn(3) == 0 {
+					a.Data[i] = []float64{0.1 + 0.2, 0.3, 1, 1e6, -7, 0.1 * 3}[r.Intn(6)]
+					b.Data[i] = a.Data[i]
+				}
+				switch r.Intn(5) {
+				case 0:
+					b.Data[i] = math.Nextafter(a.Data[i], math.Inf(1))
+				case 1:
+					b.Data[i] = math.Nextafter(a.Data[i], math.Inf(-1))
+				case 2:
+					b.Data[i] = math.Nextafter(math.Nextafter(math.Nextafter(a.Data[i], math.Inf(1)), math.Inf(1)), math.Inf(1))
+				case 3: // a zero against the zero of the other sign: the SAME number (Eq 1, Ne 0, Ge and Le 1, Gt and Lt 0)
+					a.Data[i] = math.Copysign(0, []float64{1, -1}[r.Intn(2)])
+					b.Data[i] = -a.Data[i]
+				}
+			}
+			op := c03Same[r.Intn(len(c03Same))]
+			in := ref.Instr{Op: op}
+			k.Case = fcase{In: in, Ops: []*ref.T{a, b}, Tag: "neighbouring doubles"}
+			k.Key("%s/%s/neighbouring", op, shapeKey(shape))
+			k.Count("neighbouring_double_cases", 1)
+			if msg := forwardCase(in, []*ref.T{a, b}, true); msg != "" {
+				k.Failf("%s on shape %v [operands that are equal or neighbouring doubles]: %s", op, shape, msg)
+				return
+			}
+			if op == "eq" {
+				c03Equals(k, a, b)
+			}
+		})
+	}
 	// Pow with exponents of tiny magnitude that are NOT zero (1e-300, -1e-300, 5e-324, 1e-17): 0^a is 0 or +Inf, negative^a is NaN,
 	// positive^a is 1 to within an ulp - exactly what Pow with exponent 0 does NOT give for the first two
 	for i := 0; i < c.Pick(300, 3000); i++ {
